@@ -284,6 +284,50 @@ def parse_trace(line):
     return [tuple(v[i:i + 4]) for i in range(0, len(v), 4)]
 
 
+def tso_variant(case, rng, pflush=0.35):
+    """the same case with store-buffer flush tokens (100+t) sprinkled into its schedule: for the x86-TSO search mode of
+    rt/rt.c (RT_TSO=1), in which a weaker-than-seq_cst atomic store stays in its thread's store buffer until flushed"""
+    v = [int(x) for x in case.split()]
+    i = 1 + v[0]
+    nt = v[i]; i += 1
+    for _ in range(nt):
+        i += 1 + 2 * v[i]
+    ns = v[i]
+    sched = v[i + 1:i + 1 + ns]
+    # alternate between eager phases (every store flushed right away: sequentially consistent) and lazy phases (stores
+    # stay buffered), switching at random: a delayed store matters when what precedes it is visible and it is not
+    out = []
+    eager = rng.random() < 0.5
+    for x in sched:
+        out.append(x)
+        if rng.random() < pflush * 0.25 + 0.03:
+            eager = not eager
+        if eager and 0 <= x < 100:
+            out += [100 + x, 100 + x]
+        elif rng.random() < pflush * 0.1:
+            out.append(100 + rng.randrange(max(nt, 1)))
+    return " ".join(str(x) for x in v[:i] + [len(out)] + out)
+
+
+TSO_CMD = ["env", "RT_CATCHALL=1", "RT_TSO=1"]
+
+
+def tso_search(ctx, label, exe, cases, monitor, limit=3, known=None, seed=7):
+    """search mode under x86-TSO: monitor-only runs of `cases` with randomly delayed atomic stores"""
+    import random as _r
+    rng = _r.Random(ctx.seed * 131 + seed)
+    cs = [tso_variant(c, rng, rng.choice([0.0, 0.1, 0.35, 0.7])) for c in cases]
+    impl = run_sharded(TSO_CMD + [exe], cs)
+    n = 0
+    for c, line in zip(cs, impl):
+        why = safe_monitor(monitor, c, parse_trace(line) if line is not None else None, line)
+        if why:
+            n += 1
+            if n <= limit:
+                report_violation(ctx, label + "+tso", c, "under x86-TSO (delayed atomic stores): " + why, line, known)
+    return len(cs), n
+
+
 def strip_aux(line):
     """drop the monitor-only observations (kind 929) from an implementation trace line"""
     if line is None or " 929 " not in line:
